@@ -112,7 +112,8 @@ func coerceInt(value interface{}) interface{} {
 		}
 		return coerceInt(*value)
 	case float32:
-		if value < float32(math.MinInt32) || value > float32(math.MaxInt32) {
+		if value != value || value < float32(math.MinInt32) || value > float32(math.MaxInt32) {
+			// NaN or outside 32 bits
 			return nil
 		}
 		return int(value)
@@ -122,7 +123,8 @@ func coerceInt(value interface{}) interface{} {
 		}
 		return coerceInt(*value)
 	case float64:
-		if value < float64(math.MinInt32) || value > float64(math.MaxInt32) {
+		if value != value || value < float64(math.MinInt32) || value > float64(math.MaxInt32) {
+			// NaN or outside 32 bits
 			return nil
 		}
 		return int(value)
@@ -250,6 +252,10 @@ func coerceFloat(value interface{}) interface{} {
 		}
 		return coerceFloat(*value)
 	case float32:
+		if math.IsInf(float64(value), 0) {
+			// not representable in a response (nor in JSON)
+			return nil
+		}
 		return value
 	case *float32:
 		if value == nil {
@@ -257,6 +263,9 @@ func coerceFloat(value interface{}) interface{} {
 		}
 		return coerceFloat(*value)
 	case float64:
+		if math.IsInf(value, 0) {
+			return nil
+		}
 		return value
 	case *float64:
 		if value == nil {
@@ -268,7 +277,7 @@ func coerceFloat(value interface{}) interface{} {
 		if err != nil {
 			return nil
 		}
-		return val
+		return coerceFloat(val)
 	case *string:
 		if value == nil {
 			return nil
